@@ -205,17 +205,20 @@ pub struct ProjOpts {
     pub random_config: bool,
     pub layouts: bool,
     pub coercing: bool,
+    /// set each naming/export option with probability 2/3 instead of 1/3 and lower-case some operation names (C14)
+    pub dense_options: bool,
 }
 
 impl ProjOpts {
     pub fn standard() -> ProjOpts {
-        ProjOpts { hostile_trivia: false, extension_split: true, max_schema_files: 3, random_config: true, layouts: true, coercing: false }
+        ProjOpts { hostile_trivia: false, extension_split: true, max_schema_files: 3, random_config: true, layouts: true, coercing: false, dense_options: false }
     }
 }
 
 const SCALAR_TS: &[&str] = &["string", "number", "unknown", "Date", "string | number", "Record<string, unknown>"];
 
-pub fn random_config(rng: &mut Rng, custom_scalars: &[String], layouts: bool) -> GenConfig {
+pub fn random_config(rng: &mut Rng, custom_scalars: &[String], layouts: bool, dense: bool) -> GenConfig {
+    let num = if dense { 2 } else { 1 };
     let mut c = GenConfig::basic();
     c.mode = *rng.pick(&["with-loader-ts-5.0", "with-loader-ts-4.0", "standalone-ts-4.0"]);
     if layouts {
@@ -234,13 +237,13 @@ pub fn random_config(rng: &mut Rng, custom_scalars: &[String], layouts: bool) ->
         c.emit_schema_runtime = true;
         c.schema_output = Some("./generated/schema.ts".into());
     }
-    let ob = |rng: &mut Rng| if rng.chance(1, 3) { Some(rng.coin()) } else { None };
+    let ob = |rng: &mut Rng| if rng.chance(num, 3) { Some(rng.coin()) } else { None };
     c.allow_undefined_as_optional_input = ob(rng);
     c.default_export = ob(rng);
     c.export_result_type = ob(rng);
     c.export_variables_type = ob(rng);
     c.capitalize = ob(rng);
-    let os = |rng: &mut Rng, opts: &[&str]| if rng.chance(1, 3) { Some(rng.s(opts).to_string()) } else { None };
+    let os = |rng: &mut Rng, opts: &[&str]| if rng.chance(num, 3) { Some(rng.s(opts).to_string()) } else { None };
     c.result_suffix = os(rng, &["Result", "Data", ""]);
     c.variables_suffix = os(rng, &["Variables", "Vars", ""]);
     c.fragment_type_suffix = os(rng, &["", "Fragment", "Frag"]);
@@ -268,7 +271,21 @@ pub fn gen_project(rng: &mut Rng, po: &ProjOpts) -> Option<Project> {
     let ix = SchemaIx::new(&merge_extensions(&schema));
     let mut oo = OpOpts::standard();
     oo.coercing_literals = po.coercing;
-    let doc = gen_valid_doc(rng, &ix, &oo)?;
+    let mut doc = gen_valid_doc(rng, &ix, &oo)?;
+    if po.dense_options {
+        for d in doc.defs.iter_mut() {
+            if let ExecDef::Op(o) = d {
+                if let Some(n) = o.name.as_mut() {
+                    if rng.coin() {
+                        let mut c = n.s.chars();
+                        if let Some(f) = c.next() {
+                            n.s = format!("{}{}", f.to_lowercase(), c.as_str());
+                        }
+                    }
+                }
+            }
+        }
+    }
     let shaped = if po.extension_split && rng.coin() { split_extensions(&schema, rng) } else { schema.clone() };
     // schema files
     let schema_dirs = ["schema/a.graphql", "schema/sub/b.graphql", "schema/c.graphqls"];
@@ -305,7 +322,7 @@ pub fn gen_project(rng: &mut Rng, po: &ProjOpts) -> Option<Project> {
     }
     let custom: Vec<String> = ix.order.iter().filter(|t| ix.kind(t) == Some(TKind::Scalar) && !crate::schema_ix::BUILTIN_SCALARS.contains(&t.as_str())).cloned().collect();
     let config = if po.random_config {
-        random_config(rng, &custom, po.layouts)
+        random_config(rng, &custom, po.layouts, po.dense_options)
     } else {
         let mut c = GenConfig::basic();
         for s in &custom {
